@@ -218,6 +218,10 @@ def main():
         print('  %-6s n=%d agree=%d (%.1f%%) %s' % (size, tot, c['agree'], 100.0 * c['agree'] / max(1, tot), dict(c)))
     print('program size: lines min/avg/max = %d/%d/%d ; features per program min/avg/max = %d/%.1f/%d' % (
         min(lines), sum(lines) / len(lines), max(lines), min(nfeat), sum(nfeat) / len(nfeat), max(nfeat)))
+    ops = collections.Counter()
+    for _, _, p, _ in items:
+        ops.update(p.op_stats())
+    print('expression nodes: %d, distinct operator-template x type pairs: %d' % (sum(ops.values()), len(ops)))
     allf = progs.feature_list()
     used = [f for f in allf if featcount[f]]
     print('feature coverage: %d of %d features used (%d safe-stream features, %d probes)' % (
@@ -227,6 +231,17 @@ def main():
     missing = [f for f in progs.FEATURES if not featcount[f]]
     if missing:
         print('  safe features not hit in this run: ' + ', '.join(missing))
+
+    if a.stream == 'probe':
+        pc = collections.defaultdict(collections.Counter)
+        for (i, size, p, text), r in zip(items, res):
+            for f in p.features:
+                if f.startswith('probe:'):
+                    pc[f][r['cls']] += 1
+        print('probe stream: outcome per probe (a probe that only ever agrees no longer triggers its defect)')
+        for f in progs.PROBES:
+            if pc[f]:
+                print('  %-36s %s' % (f, dict(pc[f])))
 
     # ---- failures
     fails = [(it, r) for it, r in zip(items, res) if r['cls'] != 'agree']
